@@ -124,6 +124,35 @@ impl<'a> Session<'a> {
     }
 }
 
+/// The order in which an observationally identical twin of `m` (a clone whose `iter()` shows the
+/// same entries in the same order) hands out its entries when it is stepped with `next()` alone,
+/// as (key class, value payload). `kind`: 0 into_iter, 1 into_keys, 2 into_values, 3 drain.
+/// `None` when no such twin can be had; then nothing is compared.
+pub fn twin_order_map<K: SimK, V: SimV, const C: usize>(m: &Map<K, V, C>, pre: &Snap, kind: u8) -> Option<Vec<(u32, u64)>> {
+    crate::world::observing(|| {
+        std::panic::catch_unwind(std::panic::AssertUnwindSafe(|| {
+            let mut twin = m.clone();
+            let ts = snap_map(&twin);
+            if ts.len() != pre.len() || ts.iter().zip(pre.iter()).any(|(a, b)| a.kclass != b.kclass || a.vpay != b.vpay) {
+                return None;
+            }
+            let v: Vec<(u32, u64)> = match kind {
+                0 => twin.into_iter().map(|(k, v)| (k.peek().class, v.payload())).collect(),
+                1 => twin.into_keys().map(|k| (k.peek().class, 0)).collect(),
+                2 => twin.into_values().map(|v| (0, v.payload())).collect(),
+                _ => {
+                    let v = twin.drain().map(|(k, v)| (k.peek().class, v.payload())).collect();
+                    drop(twin);
+                    v
+                }
+            };
+            Some(v)
+        }))
+        .ok()
+        .flatten()
+    })
+}
+
 pub fn forget_remaining<K: SimK, V: SimV>(cx: &mut Cx<K, V>, s: &Snap, sess: &Session<'_>, is_map: bool) {
     let rem = s.len().saturating_sub(sess.taken) as i64;
     if K::ANON {
@@ -283,6 +312,12 @@ pub fn map_op<K: SimK, V: SimV, const C: usize>(m: &mut Map<K, V, C>, cx: &mut C
                 m.retain(|k, v| {
                     let (pk, pv) = (k.peek(), v.peek());
                     env::touch(Cb::Pred, Some(&pk), Some(&pv));
+                    {
+                        // the references the predicate is handed are element references too
+                        let _p = crate::alloc::Pause::new();
+                        cx.inside("retain predicate (key)", k as *const K as usize, std::mem::size_of::<K>(), std::mem::align_of::<K>(), base, size);
+                        cx.inside("retain predicate (value)", v as *const V as usize, std::mem::size_of::<V>(), std::mem::align_of::<V>(), base, size);
+                    }
                     let r = (keep >> (i % 32)) & 1 == 1;
                     if !r && i + 1 < n {
                         removed_mid = true;
@@ -304,12 +339,13 @@ pub fn map_op<K: SimK, V: SimV, const C: usize>(m: &mut Map<K, V, C>, cx: &mut C
         }
         Op::Drain { take, end, .. } => {
             let mut sess = Session::new("drain", pre, (true, true));
+            let order = twin_order_map(m, pre, 3);
             {
                 let d = win!(aw, m.drain());
                 let rest = consume(d, cx, &mut sess, *take, *end, |x: &(K, V)| (x.0.peek().id, x.1.peek().id), |cx, x| {
                     cx.ret_k("drain", x.0);
                     cx.ret_v("drain", x.1);
-                }, (K::ANON, V::ANON));
+                }, (K::ANON, V::ANON), order.as_deref().map(|o| (o, &(|x: &(K, V)| (x.0.peek().class, x.1.payload())) as &dyn Fn(&(K, V)) -> (u32, u64))));
                 if let Some(d) = rest {
                     if *end == End::Forget {
                         forget_remaining(cx, pre, &sess, true);
@@ -327,15 +363,40 @@ pub fn map_op<K: SimK, V: SimV, const C: usize>(m: &mut Map<K, V, C>, cx: &mut C
             if m.len() != 0 || !left.is_empty() || !m.is_empty() {
                 violate("drain-not-empty", format!("after drain() (taken {} of {}, end {:?}) len()={} and iteration yields {} entries", sess.taken, pre.len(), end, m.len(), left.len()));
             }
+            // ... and leaves the container fully reusable: refill it to capacity, look everything up, empty it again
+            if *end != End::Forget && !cx.lying {
+                let ok = crate::world::observing(|| {
+                    std::panic::catch_unwind(std::panic::AssertUnwindSafe(|| {
+                        let want = if K::ANON { C.min(1) } else { C };
+                        let mut good = true;
+                        for i in 0..want {
+                            m.insert(K::make(50_000 + i as u32, 0), V::make(60_000 + i as u64, 0));
+                        }
+                        good &= m.len() == want && m.iter().count() == want;
+                        for i in 0..want {
+                            let q = K::make(50_000 + i as u32, 0);
+                            good &= V::ANON || m.get::<K>(&q).map(|v| v.payload()) == Some(60_000 + i as u64);
+                            good &= m.contains_key::<K>(&q);
+                        }
+                        m.clear();
+                        good && m.is_empty()
+                    }))
+                    .unwrap_or(false)
+                });
+                if !ok {
+                    violate("drain-not-reusable", format!("after drain() (taken {} of {}, end {:?}) the map cannot be refilled to its capacity {C} and queried", sess.taken, pre.len(), end));
+                }
+            }
         }
         Op::IntoIter { take, end, .. } => {
             let mut sess = Session::new("into_iter", pre, (true, true));
+            let order = twin_order_map(m, pre, 0);
             let owned = std::mem::replace(m, Map::new());
             let it = win!(aw, owned.into_iter());
             let rest = consume(it, cx, &mut sess, *take, *end, |x: &(K, V)| (x.0.peek().id, x.1.peek().id), |cx, x| {
                 cx.ret_k("into_iter", x.0);
                 cx.ret_v("into_iter", x.1);
-            }, (K::ANON, V::ANON));
+            }, (K::ANON, V::ANON), order.as_deref().map(|o| (o, &(|x: &(K, V)| (x.0.peek().class, x.1.payload())) as &dyn Fn(&(K, V)) -> (u32, u64))));
             if let Some(it) = rest {
                 if *end == End::Forget {
                     forget_remaining(cx, pre, &sess, true);
@@ -350,9 +411,10 @@ pub fn map_op<K: SimK, V: SimV, const C: usize>(m: &mut Map<K, V, C>, cx: &mut C
         }
         Op::IntoKeys { take, end, .. } => {
             let mut sess = Session::new("into_keys", pre, (true, false));
+            let order = twin_order_map(m, pre, 1);
             let owned = std::mem::replace(m, Map::new());
             let it = win!(aw, owned.into_keys());
-            let rest = consume(it, cx, &mut sess, *take, *end, |x: &K| (x.peek().id, 0), |cx, x| cx.ret_k("into_keys", x), (K::ANON, V::ANON));
+            let rest = consume(it, cx, &mut sess, *take, *end, |x: &K| (x.peek().id, 0), |cx, x| cx.ret_k("into_keys", x), (K::ANON, V::ANON), order.as_deref().map(|o| (o, &(|x: &K| (x.peek().class, 0u64)) as &dyn Fn(&K) -> (u32, u64))));
             if let Some(it) = rest {
                 if *end == End::Forget {
                     forget_remaining(cx, pre, &sess, true);
@@ -364,9 +426,10 @@ pub fn map_op<K: SimK, V: SimV, const C: usize>(m: &mut Map<K, V, C>, cx: &mut C
         }
         Op::IntoValues { take, end, .. } => {
             let mut sess = Session::new("into_values", pre, (false, true));
+            let order = twin_order_map(m, pre, 2);
             let owned = std::mem::replace(m, Map::new());
             let it = win!(aw, owned.into_values());
-            let rest = consume(it, cx, &mut sess, *take, *end, |x: &V| (0, x.peek().id), |cx, x| cx.ret_v("into_values", x), (K::ANON, V::ANON));
+            let rest = consume(it, cx, &mut sess, *take, *end, |x: &V| (0, x.peek().id), |cx, x| cx.ret_v("into_values", x), (K::ANON, V::ANON), order.as_deref().map(|o| (o, &(|x: &V| (0u32, x.payload())) as &dyn Fn(&V) -> (u32, u64))));
             if let Some(it) = rest {
                 if *end == End::Forget {
                     forget_remaining(cx, pre, &sess, true);
@@ -518,12 +581,35 @@ pub fn map_op<K: SimK, V: SimV, const C: usize>(m: &mut Map<K, V, C>, cx: &mut C
         }
         Op::Entry { c, act, .. } => entry_op(m, cx, *c, *act, t, pre, out, base, size),
         Op::Disjoint { cs, f, .. } => match cs.len() {
-            0 => disjoint::<K, V, C, 0>(m, cx, cs, *f, pre, base, size),
-            1 => disjoint::<K, V, C, 1>(m, cx, cs, *f, pre, base, size),
-            2 => disjoint::<K, V, C, 2>(m, cx, cs, *f, pre, base, size),
-            3 => disjoint::<K, V, C, 3>(m, cx, cs, *f, pre, base, size),
-            _ => disjoint::<K, V, C, 4>(m, cx, cs, *f, pre, base, size),
+            0 => disjoint::<K, V, C, 0>(m, cx, cs, *f, pre, base, size, false),
+            1 => disjoint::<K, V, C, 1>(m, cx, cs, *f, pre, base, size, false),
+            2 => disjoint::<K, V, C, 2>(m, cx, cs, *f, pre, base, size, false),
+            3 => disjoint::<K, V, C, 3>(m, cx, cs, *f, pre, base, size, false),
+            _ => disjoint::<K, V, C, 4>(m, cx, cs, *f, pre, base, size, false),
         },
+        Op::DisjointUnchecked { cs, f, .. } => {
+            // the contract (pairwise different keys) can only be promised under a truthful `==`,
+            // and never for more than one zero-sized key (all of them are equal)
+            let mut distinct = true;
+            for i in 0..cs.len() {
+                for j in 0..i {
+                    distinct &= cs[i] != cs[j];
+                }
+            }
+            if cx.lying || !distinct || (K::ANON && cs.len() > 1) {
+                cx.probe("disjoint_unchecked_skipped_outside_contract");
+                return;
+            }
+            cx.probe("disjoint_unchecked_within_contract");
+            match cs.len() {
+                0 => disjoint::<K, V, C, 0>(m, cx, cs, *f, pre, base, size, true),
+                1 => disjoint::<K, V, C, 1>(m, cx, cs, *f, pre, base, size, true),
+                2 => disjoint::<K, V, C, 2>(m, cx, cs, *f, pre, base, size, true),
+                3 => disjoint::<K, V, C, 3>(m, cx, cs, *f, pre, base, size, true),
+                _ => disjoint::<K, V, C, 4>(m, cx, cs, *f, pre, base, size, true),
+            }
+        }
+        Op::DefaultIter { which, .. } => default_iter::<K, V, C>(cx, *which),
         Op::Fill { .. } => {
             let mut c = 0u32;
             let mut guard = 0;
@@ -549,8 +635,9 @@ pub fn map_op<K: SimK, V: SimV, const C: usize>(m: &mut Map<K, V, C>, cx: &mut C
                 cx.probe("filled_to_full");
             }
         }
-        Op::DropNew { .. } => {
-            let old = std::mem::replace(m, Map::new());
+        Op::DropNew { dflt, .. } => {
+            let fresh: Map<K, V, C> = if *dflt { win!(aw, Map::default()) } else { win!(aw, Map::new()) };
+            let old = std::mem::replace(m, fresh);
             if !pre.is_empty() {
                 cx.probe("map_dropped_nonempty");
             }
@@ -679,6 +766,10 @@ fn entry_op<K: SimK, V: SimV, const C: usize>(m: &mut Map<K, V, C>, cx: &mut Cx<
                 e.and_modify(|v| {
                     let p = v.peek();
                     env::touch(Cb::Closure, Some(&p), None);
+                    {
+                        let _p = crate::alloc::Pause::new();
+                        cx.inside("and_modify closure", v as *const V as usize, std::mem::size_of::<V>(), std::mem::align_of::<V>(), base, size);
+                    }
                     v.set_payload(v.payload().wrapping_add(1));
                 })
             });
@@ -783,7 +874,47 @@ fn entry_op<K: SimK, V: SimV, const C: usize>(m: &mut Map<K, V, C>, cx: &mut Cx<
     }
 }
 
-fn disjoint<K: SimK, V: SimV, const C: usize, const J: usize>(m: &mut Map<K, V, C>, cx: &mut Cx<K, V>, cs: &[u32], f: Form, pre: &Snap, base: usize, size: usize) {
+/// A default-constructed iterator is empty, says so, renders as an empty list and can be dropped.
+fn default_iter<K: SimK, V: SimV, const C: usize>(cx: &mut Cx<K, V>, which: u8) {
+    let aw = cx.cfg.alloc_window;
+    macro_rules! chk {
+        ($name:expr, $it:expr, $dbg:expr) => {{
+            let mut it = win!(aw, $it);
+            let (l, h) = (it.len(), it.size_hint());
+            if l != 0 || h != (0, Some(0)) {
+                violate("inexact-length", format!("{}::default(): len()={l}, size_hint()={h:?} for an iterator over nothing", $name));
+            }
+            if $dbg {
+                let mut sink = crate::sink::Sink::new(256, None);
+                let r = win!(aw, core::fmt::write(&mut sink, format_args!("{:?}", it)));
+                if r.is_err() || sink.text() != "[]" {
+                    violate("wrong-text", format!("{}::default(): Debug renders {:?} instead of \"[]\"", $name, sink.text()));
+                }
+            }
+            for _ in 0..2 {
+                if win!(aw, it.next()).is_some() {
+                    violate("wrong-yield", format!("{}::default() yielded an item", $name));
+                }
+            }
+            cx.dg(it.len() as u64);
+            win!(aw, drop(it));
+        }};
+    }
+    cx.probe("default_iterator");
+    match which % 8 {
+        0 => chk!("Iter", micromap::Iter::<K, V>::default(), true),
+        1 => chk!("IterMut", micromap::IterMut::<K, V>::default(), true),
+        2 => chk!("IntoIter", micromap::IntoIter::<K, V, C>::default(), true),
+        3 => chk!("Keys", micromap::Keys::<K, V>::default(), true),
+        4 => chk!("IntoKeys", micromap::IntoKeys::<K, V, C>::default(), true),
+        5 => chk!("Values", micromap::Values::<K, V>::default(), true),
+        6 => chk!("ValuesMut", micromap::ValuesMut::<K, V>::default(), true),
+        _ => chk!("IntoValues", micromap::IntoValues::<K, V, C>::default(), true),
+    }
+}
+
+#[allow(clippy::too_many_arguments)]
+fn disjoint<K: SimK, V: SimV, const C: usize, const J: usize>(m: &mut Map<K, V, C>, cx: &mut Cx<K, V>, cs: &[u32], f: Form, pre: &Snap, base: usize, size: usize, unchecked: bool) {
     let aw = cx.cfg.alloc_window;
     let mut overlap = false;
     for i in 0..J {
@@ -827,7 +958,7 @@ fn disjoint<K: SimK, V: SimV, const C: usize, const J: usize>(m: &mut Map<K, V, 
             let probes: Vec<K> = (0..J).map(|i| cx.mk_k(cs[i])).collect();
             let w = {
                 let ks: [&K; J] = core::array::from_fn(|i| &probes[i]);
-                let r = win!(aw, m.get_disjoint_mut::<K, J>(ks));
+                let r = if unchecked { win!(aw, unsafe { m.get_disjoint_unchecked_mut::<K, J>(ks) }) } else { win!(aw, m.get_disjoint_mut::<K, J>(ks)) };
                 check(cx, r)
             };
             cx.pocket_k.extend(probes);
@@ -836,7 +967,7 @@ fn disjoint<K: SimK, V: SimV, const C: usize, const J: usize>(m: &mut Map<K, V, 
         Form::Bor => {
             let qs: Vec<Class> = (0..J).map(|i| Class(cs[i])).collect();
             let ks: [&Class; J] = core::array::from_fn(|i| &qs[i]);
-            let r = win!(aw, m.get_disjoint_mut::<Class, J>(ks));
+            let r = if unchecked { win!(aw, unsafe { m.get_disjoint_unchecked_mut::<Class, J>(ks) }) } else { win!(aw, m.get_disjoint_mut::<Class, J>(ks)) };
             check(cx, r)
         }
     };
